@@ -113,6 +113,10 @@ def _bounds_struct(e: E, env, depth):
                 return (0, bhi - 1)
         if op == 'ishr' and alo is not None and alo >= 0:
             return (0, ahi)
+        if op == 'ishl' and alo is not None and alo >= 0:
+            blo, bhi = _bounds(b, env, depth)
+            if blo is not None and bhi is not None and 0 <= blo and bhi < 64 and ahi is not None:
+                return (alo << blo, ahi << bhi)
         return (tlo, thi)
     if op == 'iand':
         for x in e.args:
